@@ -14,6 +14,9 @@ if ! git -C "$WT" apply "$DIR/patch.diff" 2>/tmp/seed-apply.$$; then
 fi
 BUILD=ok; (cd "$WT" && go build ./... >/tmp/seed-build.$$ 2>&1) || BUILD=FAILED
 SUITE=pass; (cd "$WT" && go test -vet=off -count=1 -timeout 20m ./... >/tmp/seed-suite.$$ 2>&1) || SUITE=FAIL
+if [ "$SUITE" = FAIL ]; then  # the suite has timing tests that flake under load: one retry
+  SUITE=pass; (cd "$WT" && go test -vet=off -count=1 -timeout 20m ./... >/tmp/seed-suite.$$ 2>&1) || SUITE=FAIL
+fi
 DEMO_WITH=skipped; DEMO_WITHOUT=skipped
 if [ -n "$DEMO" ] && [ -f "$DEMO" ]; then
   cp "$DEMO" "$WT/$PKG/zz_seeded_demo_test.go"
